@@ -213,6 +213,17 @@ func runC19(w *mon.W) {
 			h := randString(r, "ACGT", n/2+1)
 			s = h + oracle.MustRevComp(h)
 		}
+		if i%10 == 4 {
+			// hairpin / inverted-repeat designs: arms of 8..70 bases that are reverse complements of each other around
+			// a loop that is not (self-complementary only if the whole oligo is)
+			arm := randString(r, "ACGT", []int{8 + r.Intn(20), 30 + r.Intn(6), 32 + r.Intn(39)}[r.Intn(3)])
+			loop := randString(r, "ACGT", 1+r.Intn(200-2*len(arm)-1+1))
+			if len(arm)*2+len(loop) > 200 {
+				loop = loop[:200-2*len(arm)]
+			}
+			s = arm + loop + oracle.MustRevComp(arm)
+			w.Add("oligos_with_reverse_complementary_arms", 1)
+		}
 		s = randCase(r, s, []float64{0, 0.5, 1}[r.Intn(3)])
 		rc := func(lo, hi float64) []float64 {
 			a := lo * math.Pow(hi/lo, r.Float64())
@@ -221,6 +232,10 @@ func runC19(w *mon.W) {
 		mg := []float64{0, 1e-4 * math.Pow(1000, r.Float64())}
 		if r.Intn(2) == 0 {
 			mg = rc(1e-4, 0.05)
+		}
+		if i%5 == 2 {
+			mg = rc(1e-11, 1e-5) // trace magnesium (free Mg after chelation, nanomolar titration series)
+			w.Add("cases_with_trace_magnesium", 1)
 		}
 		w.Begin(id, s)
 		c19Oligo(w, id, s, rc(1e-9, 1e-4), rc(1e-3, 0.5), mg)
